@@ -218,7 +218,8 @@ def finish(prop, tier, seed, level, acc, t0, rule, bounds, assumptions=(),
            exhaustive=True, extra=None):
     """Write evidence, print VIOLATION / KNOWN-FINDING lines, return exit code."""
     known = {k['signature']: k for k in load_known() if k.get('property') == prop}
-    vdir = os.path.join(VERIF, 'violations', prop)
+    out_root = os.environ.get('VERIF_OUT', VERIF)      # seed trials write elsewhere
+    vdir = os.path.join(out_root, 'violations', prop)
     if os.path.isdir(vdir):
         for fn in os.listdir(vdir):
             if fn.endswith('.json'):
@@ -272,8 +273,8 @@ def finish(prop, tier, seed, level, acc, t0, rule, bounds, assumptions=(),
         'wall_s': round(now() - t0, 2),
         'violations': len(new),
     }
-    os.makedirs(os.path.join(VERIF, 'evidence'), exist_ok=True)
-    with open(os.path.join(VERIF, 'evidence', prop + '.json'), 'w') as f:
+    os.makedirs(os.path.join(out_root, 'evidence'), exist_ok=True)
+    with open(os.path.join(out_root, 'evidence', prop + '.json'), 'w') as f:
         json.dump(ev, f, indent=1, default=repr)
     print('%s %s: executions=%d distinct=%d states=%d transitions=%d violations=%d '
           'known=%d wall=%.1fs' % (prop, tier, acc.evaluations, len(acc.digests),
